@@ -395,10 +395,36 @@ let dispatch (f : string list) (line : string) =
   | "cont" :: r -> bump counts "cont"; do_cont r line
   | "from" :: r -> bump counts "from"; do_from r line
   | "bignum" :: r -> bump counts "bignum"; do_bignum r line
+  | "vecany" :: [kind; elems; res] ->
+      bump counts "vecany";
+      let xs = split_terms elems in
+      let exp = (match kind with "from" | "pair" -> pair_list xs | "church" -> church_list xs | "scott" -> scott_list xs
+                               | "parigot" -> parigot_list xs | _ -> failwith "vecany") in
+      if res <> ser exp then fail "oracle:C16:conversion" "Vec conversion of arbitrary (UD / open) elements differs from repeated cons" line;
+      note_nontrivial ("vecany" ^ kind ^ elems)
+  | "apporder16" :: [expected; got] ->
+      bump counts "apporder";
+      if expected <> got then fail "oracle:C16:app-macro-order" "app! does not apply its operands left to right" line
+  | "bigctor" :: [kind; n; ok] ->
+      bump counts "bigctor";
+      if ok <> "true" then begin
+        if String.length kind > 4 && String.sub kind 0 4 = "list" then
+          fail "oracle:C16:conversion" ("the list conversion fails on " ^ n ^ " elements (512 KiB stack)") line
+        else fail "oracle:C12:constructor" ("the numeral constructor fails on " ^ n ^ " (512 KiB stack)") line
+      end;
+      note_nontrivial ("bigctor" ^ kind)
+  | "metalaw" :: [name; o; bb; ok] ->
+      bump counts "metalaw";
+      if ok <> "true" then fail ("oracle:C17:" ^ name ^ ":large-index-payload") ("the law fails when the payloads' free indices are shifted by " ^ bb) line;
+      note_nontrivial ("metalaw" ^ name ^ o ^ bb)
   | "display-shift" :: r -> bump counts "display-shift"; do_display_shift r line
   | "parse" :: r -> bump counts "parse"; do_parse r line
   | "same" :: r -> bump counts "same"; do_same r line
-  | "deep" :: [d; ok] -> bump counts ("deep-" ^ d ^ "-" ^ ok)
+  | "deep" :: [kind; d; ok] ->
+      bump counts ("deep-" ^ kind ^ "-" ^ d ^ "-" ^ ok);
+      if ok <> "true" && int_of_string d <= 3000 then
+        fail "oracle:C09:deep-nesting" ("well-formed input nested " ^ d ^ " deep is not parsed to the term it denotes") line;
+      note_nontrivial ("deep" ^ kind ^ d)
   | "display" :: r -> bump counts "display"; do_display r line
   | "debug" :: r -> bump counts "debug"; do_debug r line
   | _ -> fail "format" "unknown line kind" line
